@@ -1030,7 +1030,7 @@ pub fn c05_book(out: &mut Outcome, t: bool) {
         ob.limit_vols = vec![2];
         ob.market_vols = vec![];
         ob.max_unplaced = 2;
-        with_observe(&mut plans, "create/place at one price, clock {0,+1}", &ob, 3, if t { 7 } else { 6 });
+        with_observe(&mut plans, "create/place at one price, clock {0,+1}", &ob, 3, if t { 7 } else { 5 });
     }
     // books crossed while trading was off, then an aggressor whose remainder rests on a tied level
     let mut x = core.clone();
